@@ -164,7 +164,7 @@ SUBSTR_KINDS = ["FMINDEX", "XBW"]
 EXACT_ID_KINDS = ORDERED_KINDS + ["XBW", "HASHRPDAC", "HASHRPF", "BLOCKS"]   # kinds whose IDs the model predicts
 
 
-SAVE_OPS = ("save", "save2", "resave", "foreign", "image", "reload")
+SAVE_OPS = ("save", "save2", "resave", "foreign", "image", "reload", "badtag")
 
 
 def dict_battery(tier, rng):
@@ -492,6 +492,10 @@ def c16_ops(kind, pv, S, r):
     # a kind's loader refuses another kind's image
     others = [k for k in ALL_KINDS if k != kind]
     ops += [["foreign", k] for k in r.sample(others, 4)]
+    # the generic loader refuses every tag that names no kind, whatever the image body: tags whose low byte
+    # (or low 16 bits) is the tag of a real kind, zero, and large values
+    low = r.choice([3, 4, 5, 11, 12, 114, 124, 125, 211, 214, 221, 222, 223])     # the tags of the thirteen kinds
+    ops += [["badtag", t] for t in (0, 256 + low, 512 + low, 65536 + low, 0x01000000 + low, 0xFFFFFF00 + low, 0xFFFFFFFF, 1000 + r.range(0, 5000) * 256 + low)]
     # loaders that take a load option must refuse foreign images whatever the option
     for k in ("HASHHF", "HASHRPF"):
         if k != kind:
@@ -531,7 +535,8 @@ def c02_streams(tier, rng):
                 if kind in PREFIX_KINDS:
                     ops += [["pre", hx(q[:20])] for q in foreign[:5]]
                 lc.append(("c2l_%s_%d_%s" % (kind, pv["b"], ph), "dict", kind, pv, S, ops))
-    return base + [StreamSet("longcodes", "asan", lc, timeout=120)]
+    return base + [StreamSet("longcodes", "asan", lc, timeout=120),
+                   StreamSet("huffman-keys", "asan", hhf_cases(tier, rng, 20 if tier == "thorough" else 8), phase2=hhf_phase2, timeout=60)]
 
 
 PROPS["C02"] = PropSpec(c02_streams,
@@ -791,7 +796,7 @@ def pool_cases(tier, rng, name):
     return cases
 
 
-def blocks_cases(tier, rng, name, per_dict=2):
+def blocks_cases(tier, rng, name, per_dict=2, big_inputs=True):
     thorough = tier == "thorough"
     r = rng.fork("blocks" + name)
     bat = small_battery(tier, rng, 30 if thorough else 8)
@@ -809,6 +814,12 @@ def blocks_cases(tier, rng, name, per_dict=2):
     drift = sorted(set(drift))
     bat.append(("drift", drift))
     cases = []
+    # several MiB of strings: the share of a worker exceeds 1 MiB; default and explicit cut sizes
+    big = sorted(set(bytes(r.choice(al) for _ in range(r.range(30, 80))) for _ in range(60000 if thorough else 42000)))
+    btotal = sum(len(s) + 1 for s in big)
+    for cut in (((1 << 27, 2 << 20, btotal // 3) if thorough else (1 << 27,)) if big_inputs else ()):
+        ops = [["blocksdet", 0, r.below(1 << 30)] + ([2, 3] if thorough else [2]), ["rt", hx(big[0])], ["rt", hx(big[-1])], ["rt", hx(big[len(big) // 2])]]
+        cases.append(("%s_big_cut%d" % (name, cut), "dict", "BLOCKS", {"ov": 10, "cut": cut, "thr": 2, "scale": 1}, big, ops))
     for dname, S in bat:
         total = sum(len(s) + 1 for s in S)
         cuts = [1, 8, 64, max(1, total // 2), total, total + 10]
@@ -829,14 +840,14 @@ def c10_streams(tier, rng):
 
 
 def c09_streams(tier, rng):
-    return [StreamSet("blocksdet", "asan", blocks_cases(tier, rng, "bd"), timeout=60)]
+    return [StreamSet("blocksdet", "asan", blocks_cases(tier, rng, "bd"), timeout=400)]
 
 
 def c11_streams(tier, rng):
     env = {"TSAN_OPTIONS": "halt_on_error=0:report_signal_unsafe=0:exitcode=0:second_deadlock_stack=1"}
     pc = [c for i, c in enumerate(pool_cases(tier, rng, "tp")) if i % 3 == 0]
     return [StreamSet("tsan-pool", "tsan", pc, timeout=30, env=env),
-            StreamSet("tsan-blocks", "tsan", blocks_cases(tier, rng, "tb", per_dict=1), timeout=120, env=env)]
+            StreamSet("tsan-blocks", "tsan", blocks_cases(tier, rng, "tb", per_dict=1, big_inputs=False), timeout=120, env=env)]
 
 
 PROPS["C10"] = PropSpec(c10_streams,
@@ -1168,9 +1179,14 @@ def chunk_cases(tier, rng):
     bat = small_battery(tier, rng, 8 if thorough else 3)
     Sl, rare, probe = longcw_dict(tier, rng)
     bat = bat + [("longcw", Sl)]
+    # thousands of strings over 16 letters (codewords of 3-5 bits, several symbols per 16-bit chunk): the table
+    # lists far more than 64 KiB of distinct decodeable substrings
+    a16 = [0x61 + i for i in range(16)]
+    big16 = sorted(set(bytes(r.choice(a16) for _ in range(r.range(4, 40))) for _ in range(40000 if thorough else 25000)))
+    bat = bat + [("hex16", big16)]
     cases = []
     for dname, S in bat:
-        if sum(len(x) for x in S) > 400000:
+        if sum(len(x) for x in S) > 400000 and dname != "hex16":
             continue
         texts = []
         cat = b"".join(x + b"\0" for x in S[:12])[:400]
@@ -1281,7 +1297,24 @@ def c19_streams(tier, rng):
     var.append(("var%d" % (cid + 1), "bits", "-", {}, [], [["wt", "wt", "1,1"]]))
     var.append(("var%d" % (cid + 2), "bits", "-", {}, [], [["wt", "wtnp", "0"]]))
     var.append(("var%d" % (cid + 3), "bits", "-", {}, [], [["wt", "wtnp", "0,0,0"]]))
-    return [StreamSet("succinct", "asan", cases, timeout=60), StreamSet("variants", "asan", var, timeout=60)]
+    # long vectors (hundreds of thousands of bits): several super-blocks / sample blocks / "long" blocks of the
+    # select directories; every select and a grid of rank/access are checked by the harness itself (summary line)
+    longv = []
+    rl = rng.fork("c19long")
+
+    def dens(n, per_mille):
+        return [1 if rl.below(1000) < per_mille else 0 for _ in range(n)]
+    shapes = [("sparse1m", dens(1 << 20, 10)), ("mixed600k", dens(200000, 3) + dens(200000, 600) + dens(200000, 4)),
+              ("gaps", ([0] * 70000 + [1] * 40) * 4 + [0] * 5000 + [1]), ("dense300k", dens(300000, 990)),
+              ("blocks", ([1] * 1920 + [0] * 1920 * 2) * 30)]
+    if thorough:
+        shapes += [("sparse2m", dens(1 << 21, 4)), ("half1m", dens(1 << 20, 500))]
+    for nm, bits in shapes:
+        hexbits = pack_bits(bits)
+        for impl, par in (("rg", 20), ("rg", 3), ("rrr", 32), ("rrr", 128), ("rrr", 7), ("da", 0), ("sd", 0)):
+            longv.append(("lv_%s_%s%d" % (nm, impl, par), "bits", "-", {}, [], [["bvh", impl, par, len(bits), hexbits]]))
+    return [StreamSet("succinct", "asan", cases, timeout=60), StreamSet("variants", "asan", var, timeout=60),
+            StreamSet("long-vectors", "asan", longv, timeout=300)]
 
 
 def repair_phase2(case, impl_lines):
@@ -1343,6 +1376,14 @@ def repair_inputs(tier, rng):
         for s_ in S:
             seq += list(s_) + [0]
         out.append(seq)
+    # strings of 100-300 random bytes over the whole alphabet that come in near-duplicate pairs (s, s + one byte):
+    # most pairs occur at least twice, more than 98 304 pair records are alive at once and the compressor's pair
+    # table (131 072 slots, grown at 75 % load) is enlarged
+    base = [bytes(r.range(2, 254) for _ in range(r.range(100, 300))) for _ in range(2200 if thorough else 1600)]
+    seq = []
+    for x in sorted(set(base)):
+        seq += list(x) + [0] + list(x) + [r.range(2, 254), 0]
+    out.append(seq)
     return out
 
 
